@@ -3,6 +3,8 @@ import PetgraphModel.GraphProto
 import PetgraphModel.Oracle.Reach
 import PetgraphModel.Oracle.C09Judge
 import PetgraphModel.Model.C09Algo
+import PetgraphModel.Model.C09Space
+import PetgraphModel.Oracle.C09Checks
 /-
 C09 driver.  Requests (after a `graph … enc=<encoding>` line), see harness/src/c09.rs:
 
@@ -16,6 +18,14 @@ C09 driver.  Requests (after a `graph … enc=<encoding>` line), see harness/src
   bip <s>                      => true|false
   toposort fresh|reuse         => ok a,b,c | err x
   cond <0|1> eo=<edge ids>     => <members;..>|<s:t:w,..>
+  space new|default|foreign <m> => -      the DfsSpace the following `reuse` lines go through
+
+Side conditions (wave 4): every hypothesis of the C09 theorems that concerns the concrete case is
+evaluated here (`Oracle/C09Checks.lean`; `Theorems/C09.lean`, "run-time checks of the hypotheses"):
+on the `graph` line `viewOkB`, `wfB`, `houtB`, `ixOkB`, `sizeB` (= `caseOkB`), per request `nodeB`
+(start nodes), `eoOkB` (condensation), `erSetOkB` + `compactB` (connected_components), `erOkB`
+(is_cyclic_undirected; fails for `Csr<Undirected>` = open finding D7, the documented exception).
+A failure is `SPECFAIL side condition <name> does not hold: …`.
 
 Per line: (a) the mirror model's exact answer on the VIEW, (b) the verdict of the spec-level checker
 of `Oracle/C09Judge.lean` on the IMPLEMENTATION's answer against the abstract graph.
@@ -27,10 +37,26 @@ structure DState where
   v : View := default
   ok : Bool := false
   enc : String := ""
+  /-- the model of the `DfsSpace` the harness reuses (`space` line) -/
+  space : Option Space := none
 
 /-- the view's neighbour lists describe the abstract graph (as multisets) -/
 def viewOkB (v : View) : Bool :=
   v.g.nodes.all fun a => sameSet (v.succ a) (v.g.succ a) && sameSet (v.pred a) (v.g.pred a)
+
+/-- everything the `graph` line must satisfy for the case to be inside the scope of the theorems -/
+def caseOkB (v : View) : Bool := viewOkB v && wfB v.g && houtB v && ixOkB v && sizeB v
+
+def sideFail (name detail : String) : String := s!"SPECFAIL side condition {name} does not hold: {detail}"
+
+/-- the first side condition of the `graph` line that fails -/
+def caseWhy (v : View) : Option String :=
+  if !viewOkB v then some "SPECFAIL neighbour iteration of this encoding does not describe the abstract graph"
+  else if !wfB v.g then some (sideFail "WellFormed" "node ids repeat or an edge endpoint is not a node")
+  else if !houtB v then some (sideFail "hout" "the view lists neighbours for an id that is not a node")
+  else if !ixOkB v then some (sideFail "IxOk" s!"to_index is not injective on the nodes or not below node_bound = {v.nb}")
+  else if !sizeB v then some (sideFail "hsize" "2*|nodes|+1 exceeds usize::MAX")
+  else none
 
 def verdict (spec : Option String) (model impl : String) : String :=
   match spec with
@@ -106,8 +132,78 @@ def erDoubled (g : MGraph) (er : List (Nat × Nat)) : Bool :=
   let key := fun (p : Nat × Nat) => p.1 * 100000 + p.2
   sameSet (want.map key) (er.map key) && g.edges.any fun e => e.src != e.tgt
 
+def judgeTopo (g : MGraph) (impl : String) : Option String :=
+  match splitWords impl with
+  | ["ok", l] =>
+    let ord := parseNats l
+    if topoOkB g ord then none
+    else if cycDYes g then some s!"returned Ok({showNats ord}) although the graph has a cycle"
+    else some s!"Ok({showNats ord}) is not a topological order (every node once, every edge forward)"
+  | ["err", x] =>
+    let x := x.toNat?.getD 0
+    if onCycleB g x then none
+    else if cycDNo g then some s!"returned Err(Cycle({x})) although the graph is acyclic"
+    else some s!"Cycle({x}) names a node that does not lie on a cycle"
+  | _ => some s!"unexpected answer {impl}"
+
+def judgeCond (g : MGraph) (acyc : Bool) (nodes : List (List Nat)) (es : List (Nat × Nat × Int)) : Option String :=
+  if !partOkB g nodes then some (explainPart g nodes)
+  else if acyc then
+    (if condAcyclicOkB g nodes es then none
+     else some s!"make_acyclic condensation is not the simple acyclic quotient: nodes {showNatLists nodes} edges {showTriples es}")
+  else if condOkB g nodes es then none
+  else some s!"condensation edges are not the original edges mapped to their components: nodes {showNatLists nodes} edges {showTriples es}"
+
+def judgeCc (g : MGraph) (impl : String) : Option String :=
+  match wccCount g, impl.toNat? with
+  | some k, some k' => if k == k' then none else some s!"answered {k'}, the graph has {k} weakly connected components"
+  | none, _ => some "oracle out of fuel"
+  | _, none => some s!"unexpected answer {impl}"
+
+def judgeHasPath1 (g : MGraph) (a b : Nat) (impl : String) : Option String :=
+  match reachB g a b with
+  | none => some "oracle out of fuel"
+  | some r => if impl == s!"{showBool r} {showBool r}" then none
+    else some s!"has_path_connecting({a},{b}) with a used workspace / fresh = {impl}, reachable = {showBool r}"
+
+def judgeBip (g : MGraph) (s : Nat) (impl : String) : Option String :=
+  match twoColB g s with
+  | none => some "oracle out of fuel"
+  | some b => if impl == showBool b then none
+    else some s!"answered {impl}, 2-colourability of the component of {s} is {showBool b}"
+
+def showTopo : WR (TopoRes × Space) → String
+  | .fuel => "FUEL"
+  | .panic => "panic"
+  | .ret (.ok l, _) => s!"ok {showNats l}"
+  | .ret (.cycle x, _) => s!"err {x}"
+
+def spaceAfter {α : Type} (ws : Space) : WR (α × Space) → Space
+  | .ret (_, ws') => ws'
+  | _ => ws
+
+/-- the workspace a `space <kind> <m>` line describes.  Its content cannot be observed through the API;
+the model takes the WORST case the kind allows (all `m` bits set resp. a set holding `0..m`, leftovers
+on the stack) — by `C09_space_independent` no content can change an answer. -/
+def mkSpace (v : View) (hashed : Bool) (kind : String) (m : Nat) : Space :=
+  if kind == "new" then Space.fresh v hashed
+  else if kind == "default" then { stack := [], map := if hashed then .set [] else .bits [] }
+  else { stack := (List.range m).reverse,
+         map := if hashed then .set (List.range m) else .bits (List.replicate m true) }
+
+/-- all pairs through the workspace, one after the other (rows of `has_path_connecting(a, ·)`) -/
+def hasPathRowsS (v : View) (nodes : List Nat) (ws : Space) : Option (List (Nat × List Nat)) × Space :=
+  nodes.foldl (fun (acc : Option (List (Nat × List Nat)) × Space) a =>
+    let (row, ws', bad) := nodes.foldl (fun (st : List Nat × Space × Bool) b =>
+      match hasPathS v st.2.1 a b with
+      | .ret (true, w) => (st.1 ++ [b], w, st.2.2)
+      | .ret (false, w) => (st.1, w, st.2.2)
+      | _ => (st.1, st.2.1, true)) ([], acc.2, false)
+    (if bad then none else acc.1.map (· ++ [(a, row)]), ws')) (some [], ws)
+
 def step (d : DState) (req : List String) (impl : String) : DState × String :=
   let g := d.v.g
+  let hashed := d.enc == "map"
   match req with
   | "case" :: k :: _ => ({}, s!"case {k}")
   | "graph" :: _ =>
@@ -115,8 +211,11 @@ def step (d : DState) (req : List String) (impl : String) : DState × String :=
     | none => (d, "SPECFAIL unparsable graph line")
     | some v =>
       let enc := (field? req "enc").getD ""
-      if viewOkB v then ({ v := v, ok := true, enc := enc }, "ok")
-      else ({ v := v, ok := false, enc := enc }, "SPECFAIL neighbour iteration of this encoding does not describe the abstract graph")
+      match caseWhy v with
+      | none => ({ v := v, ok := true, enc := enc }, "ok")
+      | some why => ({ v := v, ok := false, enc := enc }, why)
+  | ["space", kind, m] =>
+    ({ d with space := some (mkSpace d.v hashed kind (m.toNat?.getD 0)) }, "ok")
   | _ =>
   if impl == "panic" then (d, s!"SPECFAIL {req.headD ""} panicked") else
   match req with
@@ -140,69 +239,69 @@ def step (d : DState) (req : List String) (impl : String) : DState × String :=
     | _ => (d, s!"SPECFAIL malformed answer {impl}")
   | ["cc", er] =>
     let er := parsePairs ((er.drop 3).toString)
+    if !erSetOkB g er then (d, sideFail "ErSet" s!"edge_references() = {showPairs er} is not the edge set of the graph") else
+    if !compactB d.v then (d, sideFail "Compact" s!"some index below node_bound = {d.v.nb} belongs to no node") else
     let pairs := er.map fun p => (d.v.toIndex p.1, d.v.toIndex p.2)
     let model := match connectedComponents d.v.nb pairs with | some k => toString k | none => "panic"
-    let spec := match wccCount g, impl.toNat? with
-      | some k, some k' => if k == k' then none else some s!"answered {k'}, the graph has {k} weakly connected components"
-      | none, _ => some "oracle out of fuel"
-      | _, none => some s!"unexpected answer {impl}"
-    (d, verdict spec model impl)
+    (d, verdict (judgeCc g impl) model impl)
   | ["cycu", er] =>
     let er := parsePairs ((er.drop 3).toString)
     let pairs := er.map fun p => (d.v.toIndex p.1, d.v.toIndex p.2)
     let model := match cyclicUndirected d.v.nb pairs (UF.new 0 d.v.nb) with | some b => showBool b | none => "panic"
     let spec := judgeBool (cycUYes g) (cycUNo g) impl "\"some edge joins two nodes that are connected without it (direction ignored)\""
+    -- D7: `Csr<Undirected>::edge_references` lists every non-loop edge twice (`ErOk` fails, `ErSet` holds)
+    let d7 := d.enc == "csr" && !g.directed && erDoubled g er
     match spec with
     | some why =>
-      if d.enc == "csr" && !g.directed && impl == "true" && cycUNo g && erDoubled g er && model == "true" then
+      if d7 && impl == "true" && cycUNo g && model == "true" then
         (d, "KNOWN D7 Csr<Undirected>::edge_references lists every non-loop edge twice, so is_cyclic_undirected answers true on a forest")
       else (d, s!"SPECFAIL {why}")
-    | none => (d, cmpExact model impl)
-  | ["haspath", _] =>
+    | none =>
+      if erOkB g er || d7 then (d, cmpExact model impl)
+      else (d, sideFail "ErOk" s!"edge_references() = {showPairs er} is not the edge multiset of the graph")
+  | ["haspath", mode] =>
     let rows := parseRows impl
-    let model := (sortNats g.nodes).map fun a => (a, (sortNats g.nodes).filter fun b => hasPath d.v a b == some true)
+    let nodes := sortNats g.nodes
+    if mode == "reuse" then
+      -- through the reused workspace (`space` line; a fresh one if the harness announced none)
+      let ws := d.space.getD (Space.fresh d.v hashed)
+      let (m, ws') := hasPathRowsS d.v nodes ws
+      ({ d with space := some ws' }, verdict (judgeRows g rows) (match m with | some r => showRows r | none => "FUEL") impl)
+    else
+    let model := nodes.map fun a => (a, nodes.filter fun b => hasPath d.v a b == some true)
     let fuelOut := g.nodes.any fun a => g.nodes.any fun b => (hasPath d.v a b).isNone
     (d, verdict (judgeRows g rows) (if fuelOut then "FUEL" else showRows model) impl)
   | ["haspath1", a, b] =>
     let (a, b) := (a.toNat?.getD 0, b.toNat?.getD 0)
+    if !nodeB g a then (d, s!"SPECFAIL generator left the proved range: start node {a} is not a node") else
+    let ws := d.space.getD (Space.fresh d.v hashed)
+    let r := hasPathS d.v ws a b
+    let mr := match r with | .ret (x, _) => showBool x | .fuel => "FUEL" | .panic => "panic"
     let m := showOpt showBool (hasPath d.v a b)
-    let spec := match reachB g a b with
-      | none => some "oracle out of fuel"
-      | some r => if impl == s!"{showBool r} {showBool r}" then none
-        else some s!"has_path_connecting({a},{b}) with a used workspace / fresh = {impl}, reachable = {showBool r}"
-    (d, verdict spec s!"{m} {m}" impl)
+    ({ d with space := some (spaceAfter ws r) }, verdict (judgeHasPath1 g a b impl) s!"{mr} {m}" impl)
   | ["cycd"] =>
     (d, verdict (judgeBool (cycDYes g) (cycDNo g) impl "\"some node lies on a directed cycle\"")
       (showOpt showBool (cyclicDirected d.v)) impl)
   | ["bip", s] =>
     let s := s.toNat?.getD 0
+    if !nodeB g s then (d, s!"SPECFAIL generator left the proved range: start node {s} is not a node") else
     let model := match bipartite d.v s with | .answer b => showBool b | .panic => "panic" | .fuel => "FUEL"
-    let spec := match twoColB g s with
-      | none => some "oracle out of fuel"
-      | some b => if impl == showBool b then none
-        else some s!"answered {impl}, 2-colourability of the component of {s} is {showBool b}"
-    (d, verdict spec model impl)
-  | ["toposort", _] =>
+    (d, verdict (judgeBip g s impl) model impl)
+  | ["toposort", mode] =>
+    if mode == "reuse" then
+      let ws := d.space.getD (Space.fresh d.v hashed)
+      let r := toposortS d.v ws
+      ({ d with space := some (spaceAfter ws r) }, verdict (judgeTopo g impl) (showTopo r) impl)
+    else
     let model := match toposort d.v with
       | none => "FUEL"
       | some (.ok l) => s!"ok {showNats l}"
       | some (.cycle x) => s!"err {x}"
-    let spec := match splitWords impl with
-      | ["ok", l] =>
-        let ord := parseNats l
-        if topoOkB g ord then none
-        else if cycDYes g then some s!"returned Ok({showNats ord}) although the graph has a cycle"
-        else some s!"Ok({showNats ord}) is not a topological order (every node once, every edge forward)"
-      | ["err", x] =>
-        let x := x.toNat?.getD 0
-        if onCycleB g x then none
-        else if cycDNo g then some s!"returned Err(Cycle({x})) although the graph is acyclic"
-        else some s!"Cycle({x}) names a node that does not lie on a cycle"
-      | _ => some s!"unexpected answer {impl}"
-    (d, verdict spec model impl)
+    (d, verdict (judgeTopo g impl) model impl)
   | ["cond", acyc, eo] =>
     let eo := parseNats ((eo.drop 3).toString)
     let acyc := acyc == "1"
+    if !eoOkB d.v eo then (d, sideFail "heo" s!"the edge-index order {showNats eo} does not enumerate the edges") else
     match impl.splitOn "|" with
     | [ns, es] =>
       let nodes := parseNatLists ns
@@ -210,14 +309,7 @@ def step (d : DState) (req : List String) (impl : String) : DState × String :=
       let model := match condensation d.v eo acyc with
         | none => "FUEL"
         | some c => s!"{showNatLists c.nodes}|{showTriples c.edges}"
-      let spec :=
-        if !partOkB g nodes then some (explainPart g nodes)
-        else if acyc then
-          (if condAcyclicOkB g nodes es then none
-           else some s!"make_acyclic condensation is not the simple acyclic quotient: nodes {showNatLists nodes} edges {showTriples es}")
-        else if condOkB g nodes es then none
-        else some s!"condensation edges are not the original edges mapped to their components: nodes {showNatLists nodes} edges {showTriples es}"
-      (d, verdict spec model impl)
+      (d, verdict (judgeCond g acyc nodes es) model impl)
     | _ => (d, s!"SPECFAIL malformed answer {impl}")
   | _ => (d, s!"SPECFAIL bad request {req}")
 
